@@ -25,14 +25,15 @@ def run(chk, filename, rule, text, minimum=1, extra_flags=()):
             ids.append(i)
     src = open(path).read().splitlines()
     regions = {}
+    must_compile = {}
     cur = None
     for n, line in enumerate(src, 1):
-        m = re.match(r'\s*// MUSTFAIL (\S+)', line)
+        m = re.match(r'\s*// (MUSTFAIL|MUSTCOMPILE) (\S+)', line)
         if m:
-            cur = (m.group(1), n)
+            cur = (m.group(2), n, m.group(1))
         m = re.match(r'\s*// END (\S+)', line)
         if m and cur and cur[0] == m.group(1):
-            regions[cur[0]] = (cur[1], n)
+            (regions if cur[2] == 'MUSTFAIL' else must_compile)[cur[0]] = (cur[1], n)
             cur = None
     r = subprocess.run(['clang++', '-fsyntax-only', '-ferror-limit=0'] + flags + [path], stdout=subprocess.PIPE, stderr=subprocess.STDOUT)
     out = r.stdout.decode(errors='replace')
@@ -49,6 +50,7 @@ def run(chk, filename, rule, text, minimum=1, extra_flags=()):
             if m:
                 curb['lines'].add(int(m.group(1)))
     hit = {rid: 0 for rid in regions}
+    broke = {rid: [] for rid in must_compile}
     stray = []
     for b in blocks:
         if 'static_assert failed' in b['head'] and re.search(r'"W:', b['head']):
@@ -57,8 +59,14 @@ def run(chk, filename, rule, text, minimum=1, extra_flags=()):
         for rid, (a, z) in regions.items():
             if any(a <= l <= z for l in b['lines']):
                 owner = rid
+        mc = None
+        for rid, (a, z) in must_compile.items():
+            if any(a <= l <= z for l in b['lines']):
+                mc = rid
         if owner:
             hit[owner] += 1
+        elif mc:
+            broke[mc].append(b['head'])
         else:
             stray.append(b['head'])
     if stray:
@@ -69,3 +77,6 @@ def run(chk, filename, rule, text, minimum=1, extra_flags=()):
     for rid, n in sorted(hit.items()):
         chk.decide(n > 0, rule, 'witnesses/%s %s' % (filename, rid), 'must-fail witness %s: %s' % (rid, 'rejected by the compiler' if n else
                    'COMPILES although it must not'), function=rid)
+    for rid, errs in sorted(broke.items()):
+        chk.decide(not errs, rule, 'witnesses/%s %s' % (filename, rid), 'must-compile witness %s: %s' % (rid, 'accepted by the compiler' if not errs else
+                   'REJECTED: ' + errs[0][-160:]), function=rid)
